@@ -400,6 +400,8 @@ def validate_traces(module, cfg, executions, wdir, tag, chunks=None, env=None, t
         v = r.verdicts[-1]
         totals["lines"] += v.get("lines", 0)
         totals["ops"] += v.get("ops", 0)
+        if "outside" in v:
+            totals["outside"] = totals.get("outside", 0) + v["outside"]
         bad.extend(v.get("bad", []))
     return bad, totals, results
 
